@@ -104,6 +104,8 @@ struct Sys {
     handler: ChannelHandler,
     chan_ctx: Option<TestChannelContext>,
     secp: Secp256k1<lightning_signer::bitcoin::secp256k1::All>,
+    /// the harness's own record: a set-up request was accepted
+    set_up: bool,
 }
 
 fn make_handler(node: &Arc<Node>, proto: u32, peer_id: [u8; 33], dbid: u64) -> ChannelHandler {
@@ -175,7 +177,7 @@ impl Sys {
         let dbid = 1u64;
         let (channel_id, _) = node.new_channel(dbid, &peer_id, &node).expect("new_channel");
         let handler = make_handler(&node, proto, peer_id, dbid);
-        Sys { world, node, node_id, channel_id, peer_id, dbid, proto, handler, chan_ctx: None, secp }
+        Sys { world, node, node_id, channel_id, peer_id, dbid, proto, handler, chan_ctx: None, secp, set_up: false }
     }
 
     /// what the phase-1 entry point wants for holder commitment `n` with content `id`: the
@@ -319,6 +321,7 @@ impl Sys {
             self.world.persister.update_tracker(&self.node_id, &tracker).expect("update_tracker");
         }
         if r.is_ok() {
+            self.set_up = true;
             let nctx = self.node_ctx();
             let keys = make_test_counterparty_keys(&nctx, &self.channel_id, VALUE);
             self.chan_ctx = Some(TestChannelContext {
@@ -328,6 +331,33 @@ impl Sys {
             });
         }
         r.is_ok()
+    }
+
+    /// a set-up that the policy refuses (a contest delay out of range), directly or as the
+    /// SetupChannel message, on whatever the slot is
+    fn setup_refused(&mut self, which: u64, wire: bool) -> bool {
+        let mut setup = make_test_channel_setup();
+        setup.channel_value_sat = VALUE;
+        let ftx = Sys::funding_tx();
+        setup.funding_outpoint = lightning_signer::bitcoin::OutPoint { txid: ftx.compute_txid(), vout: 0 };
+        if which == 0 {
+            setup.holder_selected_contest_delay = 2;
+        } else {
+            setup.counterparty_selected_contest_delay = 3000;
+        }
+        let ok = if wire {
+            setup_channel_via_handler(&self.node, self.proto, self.peer_id, self.dbid, &setup)
+        } else {
+            self.node.setup_channel(self.channel_id.clone(), None, setup.clone(), &DerivationPath::master()).is_ok()
+        };
+        if self.chan_ctx.is_none() && self.is_ready() {
+            // the slot turned ready although no set-up was accepted: the history goes on with the
+            // requests of a ready channel, so that it shows what such a channel gives away
+            let nctx = self.node_ctx();
+            let keys = make_test_counterparty_keys(&nctx, &self.channel_id, VALUE);
+            self.chan_ctx = Some(TestChannelContext { channel_id: self.channel_id.clone(), setup, counterparty_keys: keys });
+        }
+        ok
     }
 
     fn restart(&mut self) {
@@ -539,7 +569,7 @@ fn do_op(sys: &mut Sys, rng: &mut Rng, extremes: bool, script: Option<(u64, u64)
     };
     if !sys.is_ready() {
         // stub: mostly set the channel up, sometimes poke it
-        return match if script.is_some() { 5 } else { rng.below(6) } {
+        return match if script.is_some() { 9 } else { rng.below(7) } {
             0 => {
                 let n = near(rng, 0);
                 let node = sys.node.clone();
@@ -573,6 +603,11 @@ fn do_op(sys: &mut Sys, rng: &mut Rng, extremes: bool, script: Option<(u64, u64)
                     Err(_) => Obs::refused(),
                 });
                 ("Revoke 1 true".into(), json!(["revoke", 1]), r)
+            }
+            4 => {
+                let (which, wire) = (rng.below(2), rng.chance(1, 2));
+                let r = guarded(|| if sys.setup_refused(which, wire) { Obs::ok() } else { Obs::refused() });
+                ("SetupRefused".into(), json!(["setup_refused_by_policy", which, wire]), r)
             }
             _ => {
                 let ok = sys.setup();
@@ -1079,6 +1114,11 @@ fn do_op(sys: &mut Sys, rng: &mut Rng, extremes: bool, script: Option<(u64, u64)
                 (format!("HRevoke {} true", n), json!(["h_revoke", n]), r)
             }
         }
+        98 if script.is_none() && rng.chance(1, 2) => {
+            let (which, wire) = (rng.below(2), rng.chance(1, 2));
+            let r = guarded(|| if sys.setup_refused(which, wire) { Obs::ok() } else { Obs::refused() });
+            ("SetupRefused".into(), json!(["setup_refused_by_policy", which, wire]), r)
+        }
         _ => {
             sys.restart();
             ("Restart".into(), json!("restart"), Obs::ok())
@@ -1194,6 +1234,9 @@ fn run(args: &Args) {
                 }
             }
             if let Some(k) = o.secret {
+                if !sys.set_up {
+                    mon.violations.push(format!("C01: secret {} disclosed by a channel that was never set up (every set-up request was refused)", k));
+                }
                 if !mon.validated.contains(&k.wrapping_add(1)) && warn.is_empty() {
                     mon.violations.push(format!("C01: secret {} disclosed but {} was never accepted with valid signatures", k, k + 1));
                 }
